@@ -25,8 +25,17 @@ impl ShardedSet {
             shards: (0..256).map(|_| Mutex::new(HashSet::new())).collect(),
         }
     }
+    /// Distinct-count bookkeeping is capped (memory): beyond ~51 M entries per set further
+    /// digests are not stored, so the reported count is then a lower bound (`counts_capped`).
     pub fn insert(&self, d: u64) -> bool {
-        self.shards[(d >> 56) as usize].lock().unwrap().insert(d)
+        let mut sh = self.shards[(d >> 56) as usize].lock().unwrap();
+        if sh.len() >= 200_000 {
+            return sh.contains(&d);
+        }
+        sh.insert(d)
+    }
+    pub fn capped(&self) -> bool {
+        self.shards.iter().any(|s| s.lock().unwrap().len() >= 200_000)
     }
     pub fn len(&self) -> u64 {
         self.shards
@@ -290,6 +299,12 @@ impl Ctx {
         }
         coverage.insert("samples".into(), Value::Array(samples));
         coverage.insert("exhaustive".into(), json!(exhaustive_claim && !capped));
+        if self.states.capped() || self.nontrivial.capped() || self.outcomes.capped() {
+            coverage.insert(
+                "counts_capped".into(),
+                json!("distinct-count sets are capped at 51.2 M digests each: states / distinct_nontrivial / distinct_outcomes are lower bounds in this run (evaluations and transitions are exact)"),
+            );
+        }
         coverage.insert(
             "levels_completed".into(),
             json!(self.levels.lock().unwrap().clone()),
